@@ -50,7 +50,8 @@ ASSUMPTIONS = ["address non-empty and NUL-free, string arguments NUL-free, blob 
                "arg-val lists contain no ranges ('-') and no arrays ('a') (range expansion is C16); array brackets are "
                "given as '[' / ']' elements",
                "double -> float conversion of the varargs path is the target's (round to nearest even, NaN quieted)",
-               "outside this property (C02): bytes behind the message, content/return value for a too small buffer; "
+               "outside this property (C02): bytes behind the message and the content of a too small buffer (for a too small "
+               "buffer only the return value is compared, with the model; the oracle demands nothing of it); "
                "(C07): rtosc_message_length on bytes that are not an encoded message; type strings with bytes that "
                "are not type tags"]
 TRUSTED = ["hand-written models RtoscModel/Osc/{Encode,Read,Length}.lean of src/rtosc.c and src/cpp/arg-val.c",
